@@ -31,9 +31,9 @@ class Hist:
 
 def run_history(rng, nops, workdir):
     x = rng.random()
-    conn = atomicops.fresh_empty_namespaces_first() if x < 0.12 else \
-        mockrepo.fresh_with_namespace_provider() if x < 0.4 else \
-        mockrepo.fresh()
+    conn = atomicops.start_state(
+        "empty-namespaces-first" if x < 0.12 else
+        "namespace-provider" if x < 0.4 else "plain")
     h = Hist()
     gen = atomicops.Gen(conn, rng, workdir)     # primes the start state
     items, desc = cimcanon.repo_items(conn)
@@ -88,8 +88,21 @@ def run(ctx):
              "schema pragma files", ("schemalist",)),
             ("MockAtomicImplDeleteClassProvider.cfg",
              "DeleteClass keeps the instances deleted before the one its "
-             "provider rejects (the code today: known finding)",
-             ("DeleteClassProvider",)),
+             "provider rejects (the code before 61ef456)",
+             ("DeleteClassProvider", "DeleteClassSubtree")),
+            ("MockAtomicImplDeleteClassLateSnapshot.cfg",
+             "DeleteClass enumerates the instances per class of its loop: "
+             "the snapshot is taken after the instance-less subclasses were "
+             "deleted", ("DeleteClassSubtree",)),
+            ("MockAtomicImplLegacyNsAlias.cfg",
+             "two spellings of the same other namespace in the references "
+             "of an association count as two namespaces",
+             ("CreateInstanceMultiNsAlias",)),
+            ("MockAtomicImplDeleteMultiNs3.cfg",
+             "DeleteInstance of an association spanning three namespaces "
+             "notices a missing copy only after deleting the earlier ones "
+             "(the code today: known finding)",
+             ("DeleteInstanceMultiNs3",)),
             ("MockAtomicImplLegacyNsScope.cfg",
              "batch snapshot covers only the target namespace; productions "
              "write into another namespace / create a namespace",
